@@ -555,6 +555,26 @@ def rule_stdout(ctx, prop, stdin_clause=False):
                 if not ok:
                     rep.violation(f"{f.key} unexpected-stdout-handle", "stdout() obtained outside the output thread",
                                   f.loc(t["sp"]), cfg)
+        # the logger never writes to stdout (env_logger's default target is stderr)
+        for g in prog.fns("stylua"):
+            hits = []
+            for b, si_, s_ in g.stmts():
+                if s_["k"] == "assign":
+                    rv = s_["rv"]
+                    if rv["k"] == "agg" and re.search(r"env_logger::(fmt::(writer::)?)?(target::)?Target$", rv.get("adt", "")) and rv.get("variant") in ("Stdout", "Pipe"):
+                        hits.append((rv.get("variant"), s_.get("sp")))
+                    for o in [rv.get("o")] + list(rv.get("ops", [])):
+                        if o is not None and is_const(o) and re.search(r"Target", str(o.get("ty", ""))) and re.search(r"Stdout|Pipe", str(o.get("pp", "")) + str(o.get("variant", ""))):
+                            hits.append((str(o.get("variant") or o.get("pp")), s_.get("sp")))
+            for b, t in g.calls():
+                for a in t["args"]:
+                    if is_const(a) and re.search(r"env_logger.*Target", str(a.get("ty", ""))) and re.search(r"Stdout|Pipe", str(a.get("pp", "")) + str(a.get("variant", ""))):
+                        hits.append((str(a.get("variant") or a.get("pp")), t.get("sp")))
+            for what, sp in hits[:2]:
+                rep.violation(f"{g.key} logger-target-stdout {what}",
+                              f"{g.path} selects env_logger target {what}: log records (debug lines under --verbose, error messages) are "
+                              f"written to stdout, where stdin mode puts the formatted text and --check its diffs", g.loc(sp), cfg)
+        rep.inst("stylua logger target is never stdout", None, cfg, ok=True)
         # the Summary header / footer only ever accompany diffs: every output format under which a println! can run is refused
         # at the top of `format` unless --check is given (so that without --check stdout carries the formatted text alone)
         ff = prog.fn("stylua", "format")
@@ -1391,7 +1411,14 @@ def rule_verify_wiring(ctx, prop):
             if not sites:
                 continue
             sw = field_switches(f, "verify")
-            if not rep.anchor(len(sw) >= 1, f"{f.key}: a branch on opt.verify chooses the OutputVerification", cfg):
+            if len(sw) < 1:
+                # an OutputVerification value chosen with no test of opt.verify in sight
+                vs = sorted({s_["rv"].get("variant") for b_, s_ in sites})
+                rep.inst(f"{f.key} OutputVerification chosen by opt.verify", {"variants": vs}, cfg, ok=False)
+                rep.violation(f"{f.key} verification-level-chosen-without-verify-flag {','.join(vs)}",
+                              f"{f.path} builds OutputVerification::{'/'.join(vs)} without branching on opt.verify: the formatter is run "
+                              f"with a verification level the user did not ask for (for instance a second, unverified formatting of a "
+                              f"file that just failed --verify, whose result is then written)", f.loc(sites[0][1]["sp"]), cfg)
                 continue
 
             def straight(frm, to):
